@@ -31,6 +31,12 @@ pub struct ServerCase {
     pub commands: Vec<(Duration, Cmd)>,
 }
 
+/// optional second session on the same handler map, run after the first one ended
+#[derive(Clone, Debug, Default)]
+pub struct Followup {
+    pub script: Vec<In>,
+}
+
 #[derive(Clone, Debug)]
 pub struct ServerObs {
     pub out: Vec<u8>,
@@ -48,6 +54,9 @@ pub struct ServerObs {
     pub io_dropped: bool,
     pub poisoned: bool,
     pub elapsed_virtual: Duration,
+    pub spin_detected: bool,
+    pub followup_out: Option<Vec<u8>>,
+    pub followup_panic: Option<String>,
 }
 
 pub fn input_stream(script: &[In]) -> Vec<u8> {
@@ -61,8 +70,13 @@ pub fn input_stream(script: &[In]) -> Vec<u8> {
 }
 
 pub fn run_server_case(case: &ServerCase) -> ServerObs {
+    run_server_case_with(case, None)
+}
+
+pub fn run_server_case_with(case: &ServerCase, followup: Option<&Followup>) -> ServerObs {
     let log: Log = Arc::new(Mutex::new(vec![]));
     let (map, refs) = build_map(&case.stores, &log);
+    let map2 = map.clone();
     let auth = case
         .policy
         .as_ref()
@@ -122,7 +136,42 @@ pub fn run_server_case(case: &ServerCase) -> ServerObs {
         })
     });
 
+    // second session on the same handlers (detects poisoned mutexes / broken shared state)
+    let mut followup_out = None;
+    let mut followup_panic = None;
+    if let Some(f) = followup {
+        let script = f.script.clone();
+        let seq2 = Seq::default();
+        let mut h2 = None;
+        let r = catch(|| {
+            let rt = tokio::runtime::Builder::new_current_thread()
+                .enable_time()
+                .start_paused(true)
+                .build()
+                .unwrap();
+            rt.block_on(async {
+                let (io, handle) = sim_io(script, seq2);
+                h2 = Some(handle);
+                let (_tx, rx) = tokio::sync::mpsc::channel(8);
+                let session = rodbus::verif::run_server_session(
+                    Box::new(io),
+                    framing,
+                    map2,
+                    None,
+                    rx,
+                    decode_level((0, 0, 0)),
+                );
+                let _ = tokio::time::timeout(Duration::from_secs(3600), session).await;
+            })
+        });
+        if let Err(p) = r {
+            followup_panic = Some(p);
+        }
+        followup_out = h2.map(|h| h.out_bytes());
+    }
+
     let handle = handle_slot;
+    let spin_detected = handle.as_ref().map(|h| h.with(|s| s.spin_detected)).unwrap_or(false);
     let (out, read_polls, maxp, delivered, dropped) = match &handle {
         Some(h) => (
             h.out_bytes(),
@@ -166,6 +215,9 @@ pub fn run_server_case(case: &ServerCase) -> ServerObs {
             io_dropped: dropped,
             poisoned,
             elapsed_virtual: Duration::ZERO,
+            spin_detected,
+            followup_out,
+            followup_panic,
         },
         Ok((res, elapsed)) => {
             let (end, timed_out) = match res {
@@ -188,6 +240,9 @@ pub fn run_server_case(case: &ServerCase) -> ServerObs {
                 io_dropped: dropped,
                 poisoned,
                 elapsed_virtual: elapsed,
+                spin_detected,
+                followup_out,
+                followup_panic,
             }
         }
     }
